@@ -540,8 +540,9 @@ pub fn run(prop: &str, tier: &str, replay: Option<&str>) -> i32 {
                 p.distinguished_name = dn;
                 if let Ok(Ok(cert)) = guarded(|| p.self_signed(kp)) {
                     match decode_cert(cert.der()).value {
-                        Some(abs) if abs.subject.len() == 1 && abs.subject[0].len() == 1 && &abs.subject[0][0].oid == o => {}
-                        Some(abs) => out.findings.push(Finding::new("DN-FROM-OID", "tbs.subject", format!("attribute built from OID {:?} is encoded as {:?}", o, abs.subject))),
+                        // pushed as a plain &str: a UTF8String holding "v", whatever the attribute type is
+                        Some(abs) if abs.subject.len() == 1 && abs.subject[0].len() == 1 && &abs.subject[0][0].oid == o && abs.subject[0][0].tag == refmodel::der::T_UTF8 && abs.subject[0][0].value == b"v" => {}
+                        Some(abs) => out.findings.push(Finding::new("DN-FROM-OID", "tbs.subject", format!("attribute built from OID {:?} with the UTF8String \"v\" is encoded as {:?}", o, abs.subject))),
                         None => out.findings.push(Finding::new("DECODE-FAILED", "certificate", format!("{:?}", o))),
                     }
                 }
